@@ -18,6 +18,7 @@ RULE = (
     "densified successfully) is the violation. Non-trivial: operator class overrides matmul / __add__ / _getitem or is not Dense. "
     "Distinct by (head class, operation, mutation kind, debug flag)."
 )
+FUZZ = {"workers": 8, "runs": 3000}  # Atheris campaigns in the thorough tier (DESIGN section 5)
 BUDGET = {"quick": 2000, "thorough": 6000}
 ASSUMPTIONS = [
     "torch's verdict on the dense operand is the specification of 'incompatible'",
